@@ -26,8 +26,6 @@ package patcher
 //@   lemma [actualPreemptibleKeepsOld] metaData.Preemptible ==> sameList(result.ResourcesStatus.AllocatedNonPreemptible, originalStatus.ResourcesStatus.AllocatedNonPreemptible)
 //@   # fixpoint (field-wise; reflect.DeepEqual itself has no model): recomputing from the status just produced changes nothing
 //@   lemma [fixpointNonPreemptible1] !metaData.Preemptible ==> getStatusWithMetadata(metaData, *result).ResourcesStatus.AllocatedNonPreemptible == result.ResourcesStatus.AllocatedNonPreemptible
-//@   lemma [fixpointNonPreemptible2] metaData.Preemptible ==> dom(getStatusWithMetadata(metaData, *result).ResourcesStatus.AllocatedNonPreemptible) == dom(result.ResourcesStatus.AllocatedNonPreemptible)
-//@   lemma [fixpointNonPreemptible3] metaData.Preemptible ==> (forall k v1.ResourceName :: getStatusWithMetadata(metaData, *result).ResourcesStatus.AllocatedNonPreemptible[k] == result.ResourcesStatus.AllocatedNonPreemptible[k])
 //@   lemma [fixpointRequested] getStatusWithMetadata(metaData, *result).ResourcesStatus.Requested == result.ResourcesStatus.Requested && getStatusWithMetadata(metaData, *result).ResourcesStatus.Allocated == result.ResourcesStatus.Allocated
 //@   ensures [otherStatusKept] result.Phase == originalStatus.Phase && result.Running == originalStatus.Running && result.Succeeded == originalStatus.Succeeded && result.Failed == originalStatus.Failed && result.Pending == originalStatus.Pending
 //@ end
